@@ -198,7 +198,7 @@ TECH['C02'] += ' + Parser::list (monitor of parsed and-or lists and separators)'
 LEVEL_TEXT['C20'] += ' Added (unit cdsyntax, unbounded Verus proof): the interpretation the cd built-in gives to parsed options and operands depends only on the sequence of occurrences and the operands, by the documented rules (last of -L / -P wins, -e only with -P, at most one non-empty operand); the same for the read built-in (unit readsyntax: last -d names the delimiter, -r raw, last operand the last variable).'
 TECH['C20'] += ' + contract-based deductive verification (Verus, Z3) of cd::syntax::parse and read::syntax::parse'
 LEVEL_TEXT['C02'] += ' Added (unit andorparse): Parser::and_or_list pairs every pipeline after the first with the operator consumed right in front of it (AndThen exactly for `&&`).'
-TECH['C02'] += ' + Parser::and_or_list + Parser::maybe_compound_list'
+TECH['C02'] += ' + Parser::and_or_list + Parser::maybe_compound_list + the executor dispatch of CompoundCommand'
 LEVEL_TEXT['C05'] += ' Added (unit globpush): SearchEnv::push_component delivers a path at the last component exactly when its existence is known or found, descends below `path/` for exactly the rest of the field otherwise, and restores the path being built.'
 TECH['C05'] += ' + SearchEnv::push_component'
 LEVEL_TEXT['C12'] += ' Added (units fgresume, bgresume): fg removes a job from the table exactly when it has finished; bg sends SIGCONT to the process group of a live job only, sets `$!` to its process ID and makes it the current job, and never removes it.'
